@@ -99,7 +99,7 @@ Definition atol8 : Qc := @ATOL@.
 Definition casety : Type := (list (Cplx Qc) * list Qc)%type.
 Definition ok (c : casety) : nat :=
   let '(raw, obs) := c in
-  if lclose Qc_eq_bool (polyroots01_of NumQ rtol5 atol8 raw) obs then 0 else 1.
+  if lclose Qc_eq_bool (polyroots01_of NumQ @DEDUP@ rtol5 atol8 raw) obs then 0 else 1.
 '''
 
 
@@ -124,19 +124,29 @@ def degenerate_axis(d):
 arc_branch = ic.arc_branch
 
 
-def miss_key(d1, d2, what):
+def miss_key(d1, d2, what, tt=None):
     """narrow key of a missed / duplicated constructed crossing"""
     core = core_of(d1, d2)
+    var = ic.detect_variants()
     if core == 'subdivision':
         if what == 'missed' and (degenerate_axis(d1) or degenerate_axis(d2)):
             return 'subdivision-prunes-zero-width-box'
+        if what == 'missed' and tt is not None and (ic.is_dyadic(tt[0]) or ic.is_dyadic(tt[1])):
+            # the crossing sits exactly on a subdivision boundary of one curve: the boxes of the
+            # neighbouring sub-curves only TOUCH there (overlap width 0): same rule, touching flavour
+            return 'subdivision-prunes-zero-width-box'
+        if what == 'missed':
+            # registered for the pinned remove-while-iterating loop only
+            return ic.pinned_key('subdivision-missed-crossing', var['rm_fixed'])
         return 'subdivision-%s-crossing' % what
     if core == 'arc':
         br = arc_branch(d1, d2)
         a = d1 if d1[0] == 'A' else d2
         if br == 'arc-u1transform' and what == 'missed':
             delta = ic.mkseg(a).delta
-            return 'arc-u1transform-missed-%s-delta' % ('negative' if delta < 0 else 'positive')
+            if delta < 0:
+                return ic.pinned_key('arc-u1transform-missed-negative-delta', var['phase2t_fixed'])
+            return 'arc-u1transform-missed-positive-delta'
         return '%s-%s' % (br, what)
     return '%s-%s' % (core, what)
 
@@ -188,7 +198,10 @@ def aligned_parabolas(rng):
 
 
 def gen_A(rng, per, n_axis, n_aligned):
-    out = []
+    # hand-picked: two parabolas crossing at t = 1/3 and t = 2/3; the pinned
+    # remove-while-iterating loop loses the second crossing (Props/C12.v C12_subdiv_skip_refuted)
+    out = [(('Q', 54j, 18 + 54j, 36 + 45j), ('Q', 22j, 18 + 94j, 36 + 13j),
+            [(1 / 3, 1 / 3), (2 / 3, 2 / 3)], {'family': 'corpus:skip-pair'})]
     for k1 in ic.KINDS:
         for k2 in ic.KINDS:
             for i in range(per):
@@ -250,8 +263,8 @@ def run_A(rep, K, tmp, items, secs):
         d1, d2, tt, res, m, size = meta[idx]
         what = 'missed' if code == 1 else 'duplicate'
         near = [x for x in res if abs(x[0] - tt[0]) < 1e-4 and abs(x[1] - tt[1]) < 1e-4]
-        key = miss_key(d1, d2, what)
-        if key == 'subdivision-missed-crossing' and size < 0.1 and \
+        key = miss_key(d1, d2, what, tt)
+        if key.startswith('subdivision-missed-crossing') and size < 0.1 and \
                 any(abs(x[0] - tt[0]) < 2e-3 and abs(x[1] - tt[1]) < 2e-3 for x in res):
             # reported, but further than 1e-4 away: the absolute stopping tolerance (box area 1e-12)
             # is too coarse for curves of this size (same class as in C11)
@@ -392,7 +405,7 @@ def run_B(rep, K, tmp, items, secs):
                 def close(a, b): return abs(a - b) < 1e-8 + 1e-5 * abs(b)
                 iso = [r for r in lost if not any(close(r, o) or close(o, r) for o in valid if o != r)]
                 if iso:
-                    key = 'polyroots-dedup-drops-root'
+                    key = ic.pinned_key('polyroots-dedup-drops-root', ic.detect_variants()['dedup_fixed'])
                     note = ' (np.roots found %s; the isolated root(s) %s were dropped by the de-duplication)' % (valid, iso)
                 else:
                     key = 'polyroots-merges-close-roots'
@@ -488,12 +501,19 @@ def run_C(rep, K, tmp, rng, n, n_poly, secs, only=None):
             segnear = [h for h in segres if abs(h[0] - t1) < 1e-4 and abs(h[1] - t2) < 1e-4]
             what = 'missed' if not near else 'duplicate'
             if len(segnear) != 1:
-                key = miss_key(p1d[i], p2d[j], 'missed' if not segnear else 'duplicate')
+                key = miss_key(p1d[i], p2d[j], 'missed' if not segnear else 'duplicate', (t1, t2))
+                if key.startswith('subdivision-missed-crossing') and ic.pair_size(seg1, seg2) < 0.1 and \
+                        any(abs(h[0] - t1) < 2e-3 and abs(h[1] - t2) < 2e-3 for h in segres):
+                    key = 'subdivision-residual-small-scale'
                 msg = 'seg1.intersect(seg2) itself reports it %d times' % len(segnear)
-            elif dup:
+            elif dup and not ic.detect_variants()['idx_fixed']:
                 key = 'path-intersect-index-duplicate-segment'
                 msg = ('the path traverses an equal segment twice: the entry of the later traversal coincides with the earlier '
                        'one (same T from list.index, same point) and is removed as a joint redundancy')
+            elif dup:
+                key = 'path-joint-dedup-removes-repeated-traversal'
+                msg = ('the path traverses an equal segment twice: the entry of the later traversal has its own T (positions are '
+                       'enumerated) but the same POINT as the earlier one, and is removed as a joint redundancy')
             else:
                 key = 'path-intersect-%s-crossing' % what
                 msg = 'the segment pair reports it once'
@@ -568,7 +588,8 @@ def run_D(rep, K, tmp, rng, n):
             np.roots = orig
         cases.append('(%s, %s)' % (coq_list([cq(z) for z in raw]), coq_list([qc(x) for x in obs])))
         meta.append((raw, obs))
-    okdef = OK_D.replace('@RTOL@', qc(1e-5)).replace('@ATOL@', qc(1e-8))
+    okdef = OK_D.replace('@RTOL@', qc(1e-5)).replace('@ATOL@', qc(1e-8)).replace(
+        '@DEDUP@', common.coq_bool(ic.detect_variants()['dedup_fixed']))
     fails, errors = common.run_cases(tmp, '', 'casety', okdef, cases, shard=200, prefix='d')
     for idx, code in fails:
         raw, obs = meta[idx]
@@ -594,6 +615,9 @@ def run(rep, tier, seed, replay=None):
     with common.Scratch() as tmp:
         info = common.std_static(rep, 'C12', GEN_GROUPS, AGREE, tmp)
         K = Keyed(rep)
+        var = ic.detect_variants()
+        rep.cov['implementation_variants'] = {k: v for k, v in var.items() if k != 'notes'}
+        rep.notes += var['notes']
         boost = 2 if (info['agree_failed'] or info['untranslated'].keys() - {'gen_bezier_by_line_2'}) else 1
         if replay:
             r = json.load(open(replay))['replay']
